@@ -350,6 +350,26 @@ theorem cont_run {fl : Bool} (tmpl : Term) (max : Nat) (prog : List Term) (hprog
           · have := altRel_match (fl := true) (d := d) (θ0 := θ0) [] hW1 hgD clauseC_ite2 rfl (by rw [hig]; rfl) bv_ite2
               (.cons d (fun _ => rfl) (.cons l (fun h => by cases h) .nil))
             exact this
+      | neg x hx =>
+        -- `\\+ G`: the VM calls `G` in a search of its own; the reference: `(call(G) -> fail ; true)`
+        subst hx
+        simp only [functorName, argList, Args.toList] at harr
+        rw [builtin_neg] at harr
+        simp only [Option.some.injEq, Prod.mk.injEq] at harr
+        obtain ⟨rfl, rfl⟩ := harr
+        have hig : img σ1 π (.app "\\+" (.cons x .nil)) = .app "\\+" (.cons (img σ1 π x) .nil) := rfl
+        rw [hig] at hs
+        cases n' with
+        | zero =>
+          exfalso
+          rw [SLD.solve] at hs
+          · simp [SLD.functor, Args.toList, SLD.builtin, solve_zero] at hs
+          · intro v hv; cases hv
+        | succ n'' =>
+        rw [solve_neg] at hs
+        have hxD : InD D x := fun v hv => hgD v (by simp [Term.hasVar, Args.hasVar, hv])
+        exact toW3 ⟨.neg rfl (Nat.pos_iff_ne_zero.1 hst.2.1) hfl
+          ⟨N, σ1, π, D, G', hN, hW1, hcg', hgr1, hco', hq1, hxD, rfl⟩ hs, hst.nextId, Nat.le_refl _⟩
       | once x hx =>
         -- once/1: `once(P) :- P, !.`; the reference: `(call(P) -> true)`
         subst hx
